@@ -190,7 +190,7 @@ POOLS = {
     "str": (["a", "bc", "1"], ["[1,2]", "", "a b"]),
     "bool": (["true", "0", "Yes"], ["n", "F", "maybe", " true", "2"]),
     "enum": (["RED", "GREEN", "BLUE"], ["PINK", "red", ""]),
-    "List[int]": (["[7,8]", "[9]", "7"], ["[]", "(1,2)", "7,8", "-3", "[1,2,3]", "[1,2,3,4]", "7 8", "[7 8]", "x", "[7,8", "[x]",
+    "List[int]": (["[7,8]", "[9]", "7"], ["[]", "(1,2)", "7,8", "-3", "[1,2,3]", "[1,2,3,4]", "7 8", "[7 8]", "x", "[7,8", "[78", "78]", "[x]",
                                           "[[1],[2]]", "'3'", "['3']", ""]),
     "List[str]": (["['p','q']", "['r']", "p"], ["[]", "q", "1", "'p'", "[p,q]", "p,q", "p q", "[1,2]", "('p','q')", ""]),
     "Tuple[int,int]": (["(3,4)", "(5,6)", "3"], ["[3,4]", "3,4", "(3,4,5)", "(3,)", "()", "4", "x", "('3','4')"]),
@@ -488,6 +488,11 @@ def _plain_word(s):
     return s != "" and all(ch not in WS and ch not in "[](),'\"" for ch in s)
 
 
+def _unbalanced(s):
+    """A token whose brackets do not match cannot be read as a sequence of ints."""
+    return s.count("[") != s.count("]") or s.count("(") != s.count(")")
+
+
 def _has_letter(s):
     return any(("A" <= ch <= "Z") or ("a" <= ch <= "z") for ch in s)
 
@@ -548,7 +553,7 @@ def _container(kind, raw, lit):
         return UNSPEC
     if e == "str":
         return wrap([("str", raw)]) if _plain_word(raw) else UNSPEC
-    return NODEN if _has_letter(raw) else UNSPEC
+    return NODEN if (_has_letter(raw) or _unbalanced(raw)) else UNSPEC
 
 
 def spec_expect(case, obs):
